@@ -254,7 +254,22 @@ func (fsm *FSM) Snapshot() (raft.FSMSnapshot, error) {
 	compactionEnd := compactionStart.Add(-1 * exp)
 
 	tmpServer := ircserver.NewIRCServer("testnetwork", time.Now())
-	if oldState, ok := fsm.lastSnapshotState[first-1]; !ok {
+	// The previous snapshot state covers all messages up to and including
+	// the one before |first|. It is usually filed under first-1, but when
+	// raft-internal log entries lie in between (they are never stored in
+	// ircstore), or when the previous snapshot compacted all messages, it is
+	// filed under a smaller index: use the most recent state before |first|.
+	var (
+		oldStateIndex uint64
+		oldState      []byte
+		ok            bool
+	)
+	for key, state := range fsm.lastSnapshotState {
+		if key < first && (!ok || key > oldStateIndex) {
+			oldStateIndex, oldState, ok = key, state, true
+		}
+	}
+	if !ok {
 		if first == 1 {
 			// This is the first snapshot which this RobustIRC network
 			// is taking, there cannot be previous state.
@@ -266,17 +281,20 @@ func (fsm *FSM) Snapshot() (raft.FSMSnapshot, error) {
 		if _, err := tmpServer.Unmarshal(oldState); err != nil {
 			return nil, err
 		}
-		// All snapshot states but first-1 can now be deleted. first-1
+		// All other snapshot states can now be deleted. This one
 		// needs to be retained in case the snapshot which is
 		// currently in progress fails and needs to be repeated.
 		for key, _ := range fsm.lastSnapshotState {
-			if key == first-1 {
+			if key == oldStateIndex {
 				continue
 			}
 			delete(fsm.lastSnapshotState, key)
 		}
 	}
 
+	// compactedAll stays true when every stored message is old enough to be
+	// compacted, i.e. no message is retained.
+	compactedAll := true
 	iterator := fsm.ircstore.GetBulkIterator(first, last+1)
 	defer iterator.Release()
 	available := iterator.First()
@@ -317,6 +335,7 @@ func (fsm *FSM) Snapshot() (raft.FSMSnapshot, error) {
 		parsed := robust.NewMessageFromBytes(nlog.Data, robust.IdFromRaftIndex(nlog.Index))
 		if parsed.Timestamp().After(compactionEnd) {
 			first = i
+			compactedAll = false
 			break
 		}
 
@@ -329,6 +348,11 @@ func (fsm *FSM) Snapshot() (raft.FSMSnapshot, error) {
 			}
 			fsm.ircstore.DeleteRange(i, i)
 		}
+	}
+
+	if compactedAll {
+		// The state covers everything up to and including |last|.
+		first = last + 1
 	}
 
 	state, err := tmpServer.Marshal(first - 1)
